@@ -373,7 +373,10 @@ class SymStruct:
     @guard
     def unpack(fmt, buf):
         if not isinstance(buf, SymBytes):
-            return _struct.unpack(fmt, buf)
+            try:
+                return _struct.unpack(fmt, buf)
+            except _struct.error as e:
+                raise core.deliberate(e)
         import re
         need = _struct.calcsize(fmt)
         E = core.ENG
@@ -560,3 +563,17 @@ def deterministic_hashes(mod, classes, flip=False):
         return __hash__
     for c in classes:
         getattr(mod, c).__hash__ = mk()
+
+
+def import_real(name):
+    """normal import of a repo module for concrete replay; must resolve to
+    the tree under test"""
+    import importlib
+    import logging
+    logging.disable(logging.CRITICAL)
+    m = importlib.import_module(name)
+    f = os.path.realpath(m.__file__)
+    if not f.startswith(os.path.realpath(REPO) + '/'):
+        raise core.EngineError('real import of %s resolved to %s, not under '
+                               '%s' % (name, f, REPO))
+    return m
